@@ -112,6 +112,35 @@ def gen_tree(rng, depth=0, p_unsafe=0.4):
         else:
             ents.append({"n": name.hex(), "k": "file", "mode": 0o100644,
                          "c": rng.randrange(1000)})
+    # names that relate to each other: a flat entry literally named
+    # "<link>/payload" next to the symlink it would pass through, and a
+    # symlink whose name merely *begins* with the name of a sibling directory
+    # that holds several files ("a/x", "a/z", "ab" -> outside, "ab/y")
+    for e in list(ents):
+        name = bytes.fromhex(e["n"])
+        if b"/" in name or name in (b"", b".", b".."):
+            continue
+        if e["k"] == "link" and rng.random() < 0.3:
+            n2 = name + b"/payload"
+            if n2 not in used:
+                used.add(n2)
+                ents.append({"n": n2.hex(), "k": "file", "mode": 0o100644,
+                             "c": rng.randrange(1000)})
+        if e["k"] == "dir" and rng.random() < 0.3:
+            sib = name + rng.choice([b"b", b"-x", b"2"])
+            if sib not in used and sib + b"/y" not in used:
+                used.update([sib, sib + b"/y"])
+                while sum(1 for x in e["e"] if x["k"] == "file") < 2:
+                    nn = rng.choice([b"x", b"z", b"m", b"q"])
+                    if nn.hex() not in {x["n"] for x in e["e"]}:
+                        e["e"].append({"n": nn.hex(), "k": "file",
+                                       "mode": 0o100644,
+                                       "c": rng.randrange(1000)})
+                ents.append({"n": sib.hex(), "k": "link",
+                             "t": rng.choice(["ABS:outside", "../outside-rel",
+                                              ".git", ".git/hooks"])})
+                ents.append({"n": (sib + b"/y").hex(), "k": "file",
+                             "mode": 0o100644, "c": rng.randrange(1000)})
     return ents
 
 
@@ -144,6 +173,25 @@ def mutate_tree(rng, ents):
     if rng.random() < 0.5:
         out.extend(e for e in gen_tree(rng, 1, 0.0)
                    if e["n"] not in {x["n"] for x in out})
+    for e in ents:
+        name = bytes.fromhex(e["n"])
+        if e["k"] == "link" and len(name) >= 2 and b"/" not in name and \
+                rng.random() < 0.3:
+            # the link itself leaves the tree (it may stay on disk when the
+            # next tree is laid over the old one); entries below its name and
+            # a populated directory named by a prefix of it arrive
+            out[:] = [x for x in out if x["n"] != e["n"]]
+            have = {x["n"] for x in out}
+            pre = name[:-1]
+            if pre.hex() not in have and pre not in (b".", b".."):
+                out.append({"n": pre.hex(), "k": "dir", "e": [
+                    {"n": b"x".hex(), "k": "file", "mode": 0o100644,
+                     "c": rng.randrange(1000)},
+                    {"n": b"z".hex(), "k": "file", "mode": 0o100644,
+                     "c": rng.randrange(1000)}]})
+            out.append({"n": e["n"], "k": "dir", "e": [
+                {"n": b"y".hex(), "k": "file", "mode": 0o100644,
+                 "c": rng.randrange(1000)}]})
     return out or gen_tree(rng, 1, 0.0)
 
 
